@@ -364,6 +364,176 @@ def climon_case(jobs, keep, exit_code, cancel_cause, files, kinds, tags, ju, evs
     return s
 
 
+# --------------------------------------------------------------------------------------- trace inclusion
+
+def trace_events(events, mgmt_db, files):
+    """engine log -> the events the driver model logs: the management session contributes only its
+    CREATE / DROP requests, test-file sessions are numbered in the order they were opened.
+    Returns (events, dbs): events as tuples, dbs[i] = database created for files[i] (or None)."""
+    sess, out, created = {}, [], []
+    for e in events:
+        if e["db"] == mgmt_db:
+            if e["ev"] == "sql":
+                text = bytes.fromhex(e["args"][1]).decode("utf-8", "replace")
+                mm = re.match(r"(CREATE|DROP) DATABASE (.*);$", text)
+                if mm:
+                    out.append(("create" if mm.group(1) == "CREATE" else "drop", mm.group(2)))
+                    if mm.group(1) == "CREATE":
+                        created.append(mm.group(2))
+            continue
+        if e["ev"] == "connect":
+            sess[e["pid"]] = len(sess)
+            out.append(("connect", sess[e["pid"]], e["db"]))
+        elif e["pid"] in sess:
+            k = sess[e["pid"]]
+            if e["ev"] == "sql":
+                out.append(("sql", k, e["db"], bytes.fromhex(e["args"][1]).decode("utf-8", "replace")))
+            elif e["ev"] in ("eof", "die"):
+                out.append(("eof", k, e["db"]))
+    dbs = []
+    for f in files:
+        # a file's database is named <test case name>_<8 characters>
+        name = test_case_name(f)
+        mine = [d for d in created if d.startswith(name + "_") and len(d) == len(name) + 9]
+        dbs.append(mine[0] if len(mine) == 1 else None)
+    return out, dbs
+
+
+def find_labels(jobs, keep, ff, dbs, res, refused_f, evs, sig, cap=300000):
+    """untrusted search for a label sequence of the driver model (Cli.lean, `dstep`) whose log is `evs`
+    and whose results are `res`; None if there is none (or the search gave up: second component)"""
+    n = len(dbs)
+    file_of = {d: i for i, d in enumerate(dbs) if d is not None}
+    ncreate = 0
+    while ncreate < len(evs) and evs[ncreate][0] == "create":
+        ncreate += 1
+    first_drop = next((j for j, e in enumerate(evs) if e[0] == "drop"), len(evs))
+    if first_drop < ncreate:
+        return None, False
+    run = evs[ncreate:first_drop]
+    R = []
+    for e in run:
+        if e[0] in ("create", "drop") or e[2] not in file_of:
+            return None, False
+        R.append((e[0], e[1], file_of[e[2]]) + tuple(e[3:]))
+    if any(e[0] != "drop" for e in evs[first_drop:]):
+        return None, False
+    last = [-1] * n
+    for j, e in enumerate(R):
+        last[e[2]] = j
+    nconn_before = [0]
+    for e in R:
+        nconn_before.append(nconn_before[-1] + (1 if e[0] == "connect" else 0))
+    dead = set()
+    steps = [0]
+    sys.setrecursionlimit(max(sys.getrecursionlimit(), 20000))
+
+    def go(pos, nxt, infl, cancelled):
+        # infl: tuple of (file, frozenset of open sessions), in start order
+        if pos == len(R) and nxt == n and not infl:
+            return []
+        key = (pos, nxt, infl, cancelled)
+        if key in dead:
+            return None
+        steps[0] += 1
+        if steps[0] > cap:
+            return None
+        d = dict(infl)
+        moves = []
+        if pos < len(R):
+            e = R[pos]
+            kind, k, i = e[0], e[1], e[2]
+            if i in d:
+                if kind == "connect" and not cancelled and k == nconn_before[pos]:
+                    moves.append((f"open {i}", pos + 1, nxt, tuple((f, (ss | {k}) if f == i else ss) for f, ss in infl), cancelled))
+                elif kind == "sql" and not cancelled and k in d[i]:
+                    moves.append((f"sql {i} {k} {hx(e[3])}", pos + 1, nxt, infl, cancelled))
+                elif kind == "eof" and k in d[i]:
+                    moves.append((f"close {i} {k}", pos + 1, nxt, tuple((f, (ss - {k}) if f == i else ss) for f, ss in infl), cancelled))
+        fin = []
+        for f, ss in infl:
+            if ss or last[f] >= pos or res[f] not in ("ok", "err", "cancelled", "skipped"):
+                continue
+            if res[f] == "cancelled" and not cancelled:
+                continue
+            # a file in flight that finds the flag set when it first looks is skipped: it never opened a
+            # session, and it waits until no file in flight has an open session
+            if res[f] == "skipped" and (not cancelled or last[f] >= 0 or any(x for _, x in infl)):
+                continue
+            sets_cancel = res[f] == "err" and (ff or refused_f[f])
+            rank = 0 if res[f] == "ok" else (1 if not sets_cancel else (2 if not cancelled else 1))
+            fin.append((rank, f, sets_cancel))
+        for rank, f, sets_cancel in sorted(fin):
+            moves.append((f"finish {f} {res[f]} {1 if refused_f[f] else 0}", pos, nxt,
+                          tuple(p for p in infl if p[0] != f), cancelled or sets_cancel))
+        if nxt < n:
+            if cancelled:
+                if not infl and res[nxt] == "skipped":
+                    moves.append(("start", pos, nxt + 1, infl, cancelled))
+            elif len(infl) < jobs:
+                moves.append(("start", pos, nxt + 1, infl + ((nxt, frozenset()),), cancelled))
+        if sig and not cancelled:
+            moves.append(("signal", pos, nxt, infl, True))
+        for lab, p2, n2, i2, c2 in moves:
+            rest = go(p2, n2, i2, c2)
+            if rest is not None:
+                return [lab] + rest
+        dead.add(key)
+        return None
+
+    body = go(0, 0, (), False)
+    if body is None:
+        return None, steps[0] > cap
+    refused = any(refused_f[i] and res[i] == "err" for i in range(n))
+    ndrop = 0 if refused else sum(1 for i in range(n) if not (keep and res[i] == "err"))
+    return ["create"] * ncreate + ["beginRun"] + body + ["beginDrop"] + ["drop"] * ndrop + ["done"], False
+
+
+def clitrace_case(jobs, keep, ff, files, kinds, tags, r):
+    """case line of op `clitrace` for one parallel run of the real CLI (None: not applicable)"""
+    evs, dbs = trace_events(r.events, "postgres", files)
+    # the CLI keeps the files in a map keyed by database name: that is the order in which databases
+    # are created, files are started and databases are dropped
+    order = sorted(range(len(files)), key=lambda i: (dbs[i] is None, dbs[i] or "", i))
+    files = [files[i] for i in order]
+    dbs = [dbs[i] for i in order]
+    res = [TAGMAP[tags.get(f, [None])[0]] for f in files]
+    refused_f = [GROUND[kinds[f]] == "refuse" and res[i] == "err" for i, f in enumerate(files)]
+    sig = any(e["ev"] == "sigint" for e in r.events)
+    labels, gave_up = (None, False)
+    if all(d is not None for d in dbs) and "none" not in res:
+        labels, gave_up = find_labels(jobs, keep, ff, dbs, res, refused_f, evs, sig)
+    if gave_up:
+        return None
+    def ev_tok(e):
+        if e[0] in ("create", "drop"):
+            return f"{e[0]} {hx(e[1])}"
+        if e[0] == "connect":
+            return f"connect {e[1]} {hx(e[2])}"
+        if e[0] == "sql":
+            return f"sql {e[1]} {hx(e[3])}"
+        return f"eof {e[1]}"
+    s = f"clitrace {jobs} {1 if keep else 0} {1 if ff else 0} {len(files)}"
+    s += "".join(f" {hx(f)} {hx(d if d is not None else '?')}" for f, d in zip(files, dbs))
+    labels = labels or []
+    s += f" {len(labels)}" + "".join(" " + l for l in labels)
+    s += f" {len(evs)}" + "".join(" " + ev_tok(e) for e in evs)
+    s += f" {len(res)}" + "".join(" " + t for t in res)
+    return s
+
+
+TRACE = os.environ.get("SLT_TRACE", "1") == "1"
+
+
+def add_trace(out, jobs, keep, ff, files, kinds, tags, r, tag):
+    """trace inclusion of a parallel run in the driver transition system (model side verifies the witness)"""
+    if not TRACE or not jobs or r.timeout:
+        return
+    c = clitrace_case(jobs, keep, ff, files, kinds, tags, r)
+    if c is not None:
+        out.add(c, "accept", tag + " [trace inclusion in the driver LTS]", None)
+
+
 def cli_run_set(cwd, files, kinds, jobs, fail_fast, keep, rnd, sigint_at=0, latency=0, slack_ms=250):
     args = ["--junit", "out"]
     if jobs:
@@ -452,6 +622,7 @@ def profile_cli16(rnd, n, thorough, out):
                 out.add(f"serial {1 if ff else 0} {len(files)} " + " ".join(GROUND[kinds[f]] for f in files), impl, tag, None)
             out.add(climon_case(jobs, keep, r.exit, cause, files, kinds, tags, ju, evs), "accept", tag,
                     ("C16|" + oracle) if oracle else None)
+            add_trace(out, jobs, keep, ff, files, kinds, tags, r, tag)
         # two files whose paths differ only in the characters the test-case name replaces: both are
         # selected, run and reported (serial mode; parallel mode refuses such a set)
         if si % 3 == 0:
@@ -496,6 +667,7 @@ def profile_cli17(rnd, n, thorough, out):
             tag = f"cli17 set={si} jobs={jobs} keep={keep} failfast={ff} latency={lat} kinds={[kinds[f] for f in files]}"
             out.add(climon_case(jobs, keep, r.exit, cause, files, kinds, tags, ju, evs), "accept", tag,
                     ("C17|" + oracle) if oracle else None)
+            add_trace(out, jobs, keep, ff, files, kinds, tags, r, tag)
         shutil.rmtree(cwd, ignore_errors=True)
 
 
@@ -562,6 +734,7 @@ def profile_cli19(rnd, n, thorough, out):
                         oracle = f"the file in flight at Ctrl-C ({owner}) is reported {t_owner}"
             out.add(climon_case(jobs, keep, r.exit, True, files, kinds, tags, ju, evs), "accept", tag,
                     ("C19|" + oracle) if oracle else None)
+            add_trace(out, jobs, keep, False, files, kinds, tags, r, tag)
         # ---- Ctrl-C while a file waits in a `sleep` record (or a retry back-off): the wait is cut short,
         # nothing more is sent for the file, the CLI exits promptly
         for f in files:
@@ -586,6 +759,7 @@ def profile_cli19(rnd, n, thorough, out):
             out.add(climon_case(jobs, False, r.exit, True, files, kinds3, tags, ju, evs), "accept",
                     f"cli19 set={si} jobs={jobs} sigint_at={k} during a sleep / back-off (took {took:.1f} s)",
                     ("C19|" + oracle) if oracle else None)
+            add_trace(out, jobs, False, False, files, kinds3, tags, r, f"cli19 set={si} jobs={jobs} sigint_at={k} during a sleep / back-off")
         # ---- fail-fast: the failing file fails on its first request while the others are still busy
         positions = range(nfiles) if jobs == 0 else range(min(jobs, nfiles))
         for pos in positions:
@@ -610,6 +784,7 @@ def profile_cli19(rnd, n, thorough, out):
                     oracle = f"under --fail-fast these files were started after the first failure: {bad}"
             out.add(climon_case(jobs, False, r.exit, True, files, kinds2, tags, ju, evs), "accept", tag,
                     ("C19|" + oracle) if oracle else None)
+            add_trace(out, jobs, False, True, files, kinds2, tags, r, tag)
             # one Ctrl-C while the run that fail-fast already stopped is cleaning up (first DROP request):
             # the clean-up still completes and the report is still written
             drops = [e["args"][0] for e in r.events if e["ev"] == "sql" and
@@ -621,6 +796,7 @@ def profile_cli19(rnd, n, thorough, out):
                     oracle = "no JUnit report was written (fail-fast stop, then one Ctrl-C during the clean-up)"
                 out.add(climon_case(jobs, False, r.exit, True, files, kinds2, tags, ju, evs), "accept",
                         f"cli19 set={si} jobs={jobs} failfast, then Ctrl-C at the first DROP request", ("C19|" + oracle) if oracle else None)
+                add_trace(out, jobs, False, True, files, kinds2, tags, r, f"cli19 set={si} jobs={jobs} failfast, then Ctrl-C at the first DROP request")
         shutil.rmtree(cwd, ignore_errors=True)
 
 
@@ -639,6 +815,8 @@ def engine_answer(sql):
     if core.startswith("desc "):
         n = int((core[5:].split() or ["0"])[0])
         return f"rows x {n}" + "".join(f" 1 {hx('r' + str(i))}" for i in reversed(range(n)))
+    if core.startswith("blankrow"):
+        return f"rows x 2 1 {hx('v')} 1 {hx(' ')}"
     if core.startswith("fail"):
         return "error " + hx("sql failed boom")
     if core.startswith("err "):
@@ -666,6 +844,11 @@ UPD_RECORDS = [
     ("query T", "desc 3 {n}", "----\nr2\nr1\nr0\n"),
     ("query T", "desc 3 {n}", "----\nr0\nr1\nr2\n"),
     ("query T nosort", "desc 4 {n}", "----\nr3\nr2\nr1\nr0\n"),
+    # result blocks whose LAST line consists of white space only (a blank value): when such a record ends
+    # a file, the trailing-newline clean-up must not take that line for padding
+    ("query T", "blankrow {n}", "----\nv\n \n"),
+    ("query T", "select {n}", "----\n{n}\n \t\n"),
+    ("query T", "blankrow {n}", "----\nwrong\n"),
 ]
 
 # records whose SQL changes under `control substitution on` (escapes only: no variables)
@@ -734,6 +917,11 @@ def gen_cli_tree(rnd, multi=0):
         if c == 1:
             return t + "\n" * rnd.randint(1, 20)
         return t
+    if rnd.random() < 0.2:
+        ctr[0] += 1
+        q = f"blankrow {ctr[0] * 10 + 1} #{ctr[0]}"
+        sqls.append(q)
+        root += f"query T\n{q}\n----\nv\n \n"
     tree = [(nm, ending(contents[nm])) for nm in names] + [("root.slt", ending(root))]
     if not multi:
         return tree, sqls
@@ -744,7 +932,7 @@ def gen_cli_tree(rnd, multi=0):
             body += rnd.choice(["control sortmode rowsort\n\n", "control sortmode valuesort\n\n", "hash-threshold 2\n\n",
                                 "control substitution on\n\n", "hash-threshold 3\n\n"])
         # ... directly followed by a record that is sensitive to such state
-        hdr, sql, block = rnd.choice(UPD_RECORDS[-3:] + SUBST_RECORDS + [("query T", "rows 4", "----\nr0\nr1\nr2\nr3\n")])
+        hdr, sql, block = rnd.choice(UPD_RECORDS[-6:-3] + SUBST_RECORDS + [("query T", "rows 4", "----\nr0\nr1\nr2\nr3\n")])
         ctr[0] += 1
         q = sql.format(n=ctr[0] * 10 + 1, m=ctr[0] * 10 + 2, c=4)
         sqls.append(q)
